@@ -168,8 +168,15 @@ const miniCSV2RDQInput = "1,plain\n2,say \"hi\"\n3,\"quoted\n4,5\" wide\n5,\"las
 // an XML document that declares a single-byte encoding itself (the decoder switches charset after the declaration)
 const miniXMLDeclaredInput = "<?xml version=\"1.0\" encoding=\"ISO-8859-1\"?>\n<root><rec id=\"a\"><qty>1</qty><tag>caf\xe9</tag></rec><rec id=\"b\"><qty>2</qty><tag>\xfcber</tag></rec><rec id=\"c\"><qty>bad</qty></rec><rec id=\"d\"><qty>4</qty><tag>na\xefve &amp; cr\xe8me</tag></rec></root>\n"
 
+// lines the csv readers themselves reject (a bare quote inside a field, text after a closing quote) between lines they
+// accept: the reader reports the line and carries on with the next one
+const miniCSVBadLinesInput = "id,name,qty\n1,alpha,10\n2,be\"ta,20\n3,gamma,30\n4,\"del\"ta,40\n5,eps,50\n6,\"open,60\n"
+const miniCSV2BadLinesInput = "H,a,1\nD,x\nH,b\"b,2\nD,y\nH,c,3\nD,\"z\"z\nH,d,4\n"
+
 func miniSamples() []Sample {
 	return []Sample{
+		{"mini/csv-rejected-lines", "csv", []byte(miniCSV), []byte(miniCSVBadLinesInput)},
+		{"mini/csv2-rejected-lines", "csv2", []byte(miniCSV2), []byte(miniCSV2BadLinesInput)},
 		{"mini/xml-declared-latin1", "xml", []byte(miniXML), []byte(miniXMLDeclaredInput)},
 		{"mini/csv2-replace-double-quotes", "csv2", []byte(miniCSV2RDQ), []byte(miniCSV2RDQInput)},
 		{"mini/specials", "csv", []byte(miniSpecials), []byte(miniSpecialsInput)},
